@@ -538,10 +538,16 @@ class Runtime:
         _h._enter()
         _h.emit("cond.in", c, o, a, 0, "", old, res)
         truth = _h._cond_value(c, role, o, a)
-        _h.emit("cond.out", c, o, a, 4, "ret")
+        raising = _h.prog["con"][c - 1]["rv"] == "futureraise"
+        _h.emit("cond.out", c, o, a, 5 if raising else 4, "ret")
 
         class _Fut:
             def __await__(self_inner):  # type: ignore
+                if raising:
+                    # awaiting the result fails: the exception object is registered so that it is recognised
+                    exc = FaultExc("await@{}".format(c))
+                    _h.faults[900 + c] = exc
+                    raise exc
                 return truth
                 yield  # pragma: no cover
 
